@@ -27,12 +27,15 @@ Record bfixes := mkBF {
                             of the document (offset = len(contents)) as hover does; before: `offset >= len` gave up *)
   bf_for_order : bool;   (* C05-for-step-order: cgForNumStat analyses init, limit, step (source order); before: init,
                             STEP, limit - a function scope of the step was stored before those of the limit (class B5) *)
-  bf_multi_local : bool  (* C07-multi-local-order: cgLocalVarDeclStat analyses ALL initialisers, then adds the names;
+  bf_multi_local : bool; (* C07-multi-local-order: cgLocalVarDeclStat analyses ALL initialisers, then adds the names;
                             before: name i was added right after initialiser i (class B3 / multi_local_order) *)
+  bf_own_init : bool     (* C05-own-initialiser: IsCorrectPosition hides a local from every use inside the initialiser
+                            list of its own statement (VarInfo.InitLoc); before: only when the initialiser was a plain
+                            name / call / function expression containing the use (class B1) *)
 }.
-Definition no_fixes : bfixes := mkBF false false false false.
-Definition all_fixes : bfixes := mkBF true true true true.
-Definition deployed : bfixes := mkBF true true true true.
+Definition no_fixes : bfixes := mkBF false false false false false.
+Definition all_fixes : bfixes := mkBF true true true true true.
+Definition deployed : bfixes := mkBF true true true true true.
 
 (* ------------------------------------------------------------------ Location predicates (lexer/common.go) *)
 Definition loc_eqb (a b : loc) : bool :=                      (* CompareTwoLoc *)
@@ -66,10 +69,30 @@ Definition ref_of_exp (e : exp) : refexp :=
   | _ => RNone
   end.
 
-Record ventry := mkV { v_name : list N; v_loc : loc; v_ref : refexp; v_empty : bool (* IsExpEmpty *) }.
+Record ventry := mkV5 {
+  v_name : list N; v_loc : loc; v_ref : refexp; v_empty : bool (* IsExpEmpty *);
+  v_init : option loc;    (* VarInfo.InitLoc (fixes/C05-own-initialiser.diff): for a variable declared by
+                             `local names = explist` the range of the explist, from behind the last name to the end of
+                             the statement *)
+  v_tab : option loc      (* VarInfo.InitTableLoc: the Loc of the variable's own initialiser when that is a table
+                             constructor (set at the declaration, never changed) *)
+}.
+(* a variable without an initialiser list (parameters, loop variables, local functions, `local x`) *)
+Notation mkV n l r e := (mkV5 n l r e None None).
+
+Definition tab_of_exp (e : exp) : option loc := match e with ETable _ _ l => Some l | _ => None end.
+
+(* a use inside the initialiser list of the declaring statement does not see the variable - except inside the variable's
+   own table constructor (key completion looks the variable up there) *)
+Definition init_hides (v : ventry) (l : loc) : bool :=
+  match v_init v with
+  | Some il => loc_contains il l && negb (match v_tab v with Some tl => loc_contains tl l | None => false end)
+  | None => false
+  end.
 
 Definition is_correct_position (v : ventry) (l : loc) : bool :=
   if negb (loc_before (v_loc v) l) then false
+  else if init_hides v l then false
   else match v_ref v with
        | RFunc fl => if loc_contains fl (v_loc v) then true else negb (loc_contains fl l)
        | RName nl => negb (loc_contains nl l)
@@ -211,8 +234,8 @@ Fixpoint upd_frames (p : ventry -> bool) (f : ventry -> ventry) (fs : list frame
 Definition repoint (name : list N) (eo : option exp) (v : ventry) : ventry :=
   if v_empty v then
     match eo with
-    | Some e => mkV (v_name v) (v_loc v) (ref_of_exp e) (refer_empty name e)
-    | None => mkV (v_name v) (v_loc v) (v_ref v) false
+    | Some e => mkV5 (v_name v) (v_loc v) (ref_of_exp e) (refer_empty name e) (v_init v) (v_tab v)
+    | None => mkV5 (v_name v) (v_loc v) (v_ref v) false (v_init v) (v_tab v)
     end
   else v.
 
@@ -255,37 +278,50 @@ Fixpoint local_loop_old (vis : list (exp * (tstate -> tstate))) (ns : list (list
 (* cgLocalVarDeclStat now: ALL the expressions are visited first (as Lua evaluates them: none sees a name of the
    statement; one expression beyond the names is still visited, it ends the first loop), then name i is added with
    expression i as its ReferExp; names beyond the expressions get no value (or the trailing call) *)
-Fixpoint local_adds (es : list exp) (ns : list (list N * loc)) (lastcall : refexp) (st : tstate) : tstate :=
+(* il = VarInfo.InitLoc of every variable of the statement (fixes/C05-own-initialiser.diff; None before it) *)
+Fixpoint local_adds (es : list exp) (ns : list (list N * loc)) (lastcall : refexp) (il : option loc) (st : tstate)
+  : tstate :=
   match es with
   | [] =>
-    fold_left (fun s nl => add_var (mkV (fst nl) (snd nl) lastcall
-                                        (match lastcall with RNone => true | _ => false end)) s) ns st
+    fold_left (fun s nl => add_var (mkV5 (fst nl) (snd nl) lastcall
+                                         (match lastcall with RNone => true | _ => false end) il None) s) ns st
   | e :: es' =>
     match ns with
     | [] => st
     | (n, nl) :: ns' =>
-      local_adds es' ns' (match e with ECall _ _ _ _ => ref_of_exp e | _ => RNone end)
-                 (add_var (mkV n nl (ref_of_exp e) (refer_empty n e)) st)
+      local_adds es' ns' (match e with ECall _ _ _ _ => ref_of_exp e | _ => RNone end) il
+                 (add_var (mkV5 n nl (ref_of_exp e) (refer_empty n e) il (tab_of_exp e)) st)
     end
   end.
 
 (* the entries local_adds adds, in the order they are added (local_adds = fold of add_var over them:
    Proofs/TraverseBindDefs.v local_adds_fold) *)
-Fixpoint local_vars (es : list exp) (nls : list (list N * loc)) (lastcall : refexp) {struct es} : list ventry :=
+Fixpoint local_vars (es : list exp) (nls : list (list N * loc)) (lastcall : refexp) (il : option loc) {struct es}
+  : list ventry :=
   match es with
-  | [] => map (fun nl => mkV (fst nl) (snd nl) lastcall (match lastcall with RNone => true | _ => false end)) nls
+  | [] => map (fun nl => mkV5 (fst nl) (snd nl) lastcall (match lastcall with RNone => true | _ => false end) il None) nls
   | e :: es' =>
     match nls with
     | [] => []
     | (n, nl) :: nls' =>
-      mkV n nl (ref_of_exp e) (refer_empty n e)
-          :: local_vars es' nls' (match e with ECall _ _ _ _ => ref_of_exp e | _ => RNone end)
+      mkV5 n nl (ref_of_exp e) (refer_empty n e) il (tab_of_exp e)
+           :: local_vars es' nls' (match e with ECall _ _ _ _ => ref_of_exp e | _ => RNone end) il
     end
   end.
 
 Definition local_loop (vis : list (exp * (tstate -> tstate))) (ns : list (list N * loc)) (lastcall : refexp)
-           (st : tstate) : tstate :=
-  local_adds (map fst vis) ns lastcall (apply_all (map snd (firstn (S (length ns)) vis)) st).
+           (il : option loc) (st : tstate) : tstate :=
+  local_adds (map fst vis) ns lastcall il (apply_all (map snd (firstn (S (length ns)) vis)) st).
+
+(* cgLocalVarDeclStat: initLoc = from behind the last declared name to the end of the statement, when there are
+   initialisers *)
+Definition init_loc (ns : list (list N)) (ls : list loc) (es : list exp) (l : loc) : option loc :=
+  match es, ns with
+  | [], _ | _, [] => None
+  | _ :: _, _ :: _ =>
+    let ln := nth (length ns - 1) ls zero_loc in
+    Some (mkLoc (el ln) (ec ln + 1) (el l) (ec l))
+  end.
 
 (* cgAssignStat: per target, its expression (if any) is visited first, then the target is handled; surplus
    expressions are visited at the end *)
@@ -352,8 +388,8 @@ with tr_stat (flv slv : Z) (s : stat) (st : tstate) {struct s} : tstate :=
                                | _ => TgOther (fun s => s)
                                end) vars)
                 (map (fun e => (e, tr_exp flv e)) es) st
-  | SLocal ns ls _ es _ =>
-    local_loop (map (fun e => (e, tr_exp flv e)) es) (combine ns ls) RNone st
+  | SLocal ns ls _ es l =>
+    local_loop (map (fun e => (e, tr_exp flv e)) es) (combine ns ls) RNone (init_loc ns ls es l) st
   | SLocalFunc n nl f _ => tr_exp flv f (add_var (mkV n nl (ref_of_exp f) false) st)
   end
 with tr_block (flv slv : Z) (b : block) (st : tstate) {struct b} : tstate :=
@@ -415,8 +451,11 @@ with tr_stat_fx (flv slv : Z) (s : stat) (st : tstate) {struct s} : tstate :=
                                | _ => TgOther (fun s => s)
                                end) vars)
                 (map (fun e => (e, tr_exp_fx flv e)) es) st
-  | SLocal ns ls _ es _ =>
-    (if bf_multi_local fx then local_loop else local_loop_old) (map (fun e => (e, tr_exp_fx flv e)) es) (combine ns ls) RNone st
+  | SLocal ns ls _ es l =>
+    if bf_multi_local fx then
+      local_loop (map (fun e => (e, tr_exp_fx flv e)) es) (combine ns ls) RNone
+                 (if bf_own_init fx then init_loc ns ls es l else None) st
+    else local_loop_old (map (fun e => (e, tr_exp_fx flv e)) es) (combine ns ls) RNone st
   | SLocalFunc n nl f _ => tr_exp_fx flv f (add_var (mkV n nl (ref_of_exp f) false) st)
   end
 with tr_block_fx (flv slv : Z) (b : block) (st : tstate) {struct b} : tstate :=
